@@ -2,11 +2,11 @@ from lib.driver import Ob
 
 LEVEL = 'model_checking'
 EXPLANATION = ('symx executes the real BaseDurationParser.parse (+ resolution builder) with a symbolic amount N for every unit word, the real date-period parser on two '
-               'symbolic absolute endpoints (start day number and gap symbolic), and DateTimeFormatUtil.luis_time_span on symbolic instants; z3 decides every branch.')
+               'symbolic absolute endpoints (start day number and gap symbolic), the time-period and date-time-period two-point merges on symbolic clock times / instants, and DateTimeFormatUtil.luis_time_span on symbolic instants; z3 decides every branch.')
 ASSUMPTIONS = ['the cardinal extractor / number parser inside the duration parser are stubs returning the symbolic amount for a one-character numeral',
                'float() of an integer amount is exact (N x unit <= 5000 x 31536000 < 2**53), so the symbolic integer stands for the double',
                'the inner date extractor/parser of the period parser are stubs returning two absolute dates at fixed spans; the range text is "from aaaa to bbbb"']
-OUTSIDE = ['fractional amounts ("and a half")', 'time-of-day and date-time ranges between two points', '"every range entity produced on the Specs inputs" (corpus replay)',
+OUTSIDE = ['fractional amounts ("and a half")', '"every range entity produced on the Specs inputs" (corpus replay)',
            'decade/quarter/fortnight/weekend units']
 B = 'recognizers_date_time.date_time.'
 
